@@ -186,8 +186,17 @@ example : (mkRequest { Skeleton.current with stubCtxSkipped := false } idCodec "
 theorem C17_frame_struct_per_iteration :
     Skeleton.current.reqFrameFreshPerIteration = true ∧ Skeleton.current.respFrameFreshPerIteration = true := by decide
 
+/-- A closure invocation is an ordinary request (`C17_request_shape` applies to it) for `CallClosure`
+    with two arguments: the closure id and the closure's own argument list, the latter handed to `marshal`
+    as ONE value.  That value is a slice initialised to the empty, non-nil `[]interface{}{}` inside the
+    per-invocation literal and appended to once per non-context argument (checked against the regenerated
+    skeleton) — so a closure that takes only the context is invoked with `[]`, never with `null` (which
+    is what a nil slice encodes to, and what a foreign implementation that spreads the list chokes on). -/
+theorem C17_closure_arglist_is_array : Skeleton.current.pxArgsFreshPerInvocation = true := by decide
+
 end Panrpc.Wire
 
+#print axioms Panrpc.Wire.C17_closure_arglist_is_array
 #print axioms Panrpc.Wire.C17_request_shape
 #print axioms Panrpc.Wire.C17_request_args
 #print axioms Panrpc.Wire.C17_response_shape
